@@ -419,7 +419,7 @@ pub fn run(mut run: Run) -> ! {
     run.worker_stack_mb = 8;
     run.worker_mem_limit_kb = Some(3 * 1024 * 1024);
     let quick = run.quick();
-    run.rule = "deviation-bounded exhaustive exploration of the public pipeline (parse, format, latex, type check, token map, transform, linearize, renderings, standardise, tableau simplex, auto solver and the four other solver entry points, one-shot solver, every error renderer): level 0 = corpus of valid programs; level 1 = EVERY single token-level mutation of every corpus program (delete / duplicate / swap each token, 15 numeric extremes (incl. small just-out-of-range values) in every numeric slot, keyword/identifier substitutions, 18 insertions before every token, truncation at every character); level 2 = all pairs of level-1 delete/duplicate/numeric-extreme mutations within one line; nesting = 17 nesting constructs at every depth 1..64; small scope = all strings of length <= 4 (thorough: 5) over a 24-symbol alphabet in 5 syntactic slots; unicode = 7 multi-byte strings before every token of 3 programs; distinct = program texts; non-trivial = every text (each is a distinct input to the compiler)".into();
+    run.rule = "deviation-bounded exhaustive exploration of the public pipeline (parse, format, latex, type check, token map, transform, linearize, renderings, standardise, tableau simplex, auto solver and the four other solver entry points, one-shot solver, every error renderer): level 0 = corpus of valid programs; level 1 = EVERY single token-level mutation of every corpus program (delete / duplicate / swap each token, 15 numeric extremes (incl. small just-out-of-range values) in every numeric slot, keyword/identifier substitutions, 18 insertions before every token, truncation at every character); level 2 = all pairs of level-1 delete/duplicate/numeric-extreme mutations within one line; nesting = 17 nesting constructs at every depth 1..64; typed holes = every (template x atom) program of the C19 engine (each kind of expression, incl. blocks over constants, in each syntactic position); small scope = all strings of length <= 4 (thorough: 5) over a 24-symbol alphabet in 5 syntactic slots; unicode = 7 multi-byte strings before every token of 3 programs; distinct = program texts; non-trivial = every text (each is a distinct input to the compiler)".into();
     run.assume("worker subprocesses with an 8 MiB stack (the default main-thread stack), a 3 GiB address-space limit and an 8 s per-case watchdog: stack overflow, allocation failure and non-termination are observed as abort/hang violations");
     run.assume("arbitrary byte noise beyond length 4 (thorough: 5) over the 24-symbol alphabet is not covered (only reachable by sampling, which is outside this technique)");
     // ----- level 0 / 1 / 2
@@ -532,6 +532,15 @@ pub fn run(mut run: Run) -> ! {
     }
     // ----- small scope
     let max_len = if quick { 4 } else { 5 };
+    {
+        // every typed-hole program of the C19 engine (each expression kind in each syntactic position)
+        let progs = Arc::new(crate::props::c19::programs_for_totality());
+        let p2 = progs.clone();
+        run.family("H-typed-holes", progs.len() as u64, move |i, l| {
+            let (class, src) = &p2[i as usize];
+            pipeline(src, class, l);
+        });
+    }
     run.family(&format!("S-all-strings-len<={max_len}"), small_scope_size(max_len), move |i, l| {
         let (class, src) = small_scope_case(i, max_len);
         if l.describe(&class, || json!({"source": src})) {
